@@ -21,6 +21,10 @@ def run_case(c):
     ml = c["ml"]
     before = snapshot(whole)
     out = {}
+    # the raw links of the start node's subtree (labels 0..n-1), for the abstraction function of the model
+    if sorted(nodes) == list(range(len(nodes))):
+        out["links"] = [[None if nodes[i].parent is None else nodes[i].parent.lbl, [ch.lbl for ch in nodes[i].children]]
+                        for i in range(len(nodes))]
     out["pre"] = lbls(PreOrderIter(start, filt, stop, ml))
     out["post"] = lbls(PostOrderIter(start, filter_=filt, stop=stop, maxlevel=ml))
     out["level"] = lbls(LevelOrderIter(start, filt, stop, ml))
